@@ -1,6 +1,6 @@
 """C17 - loop connections compute the accumulated repeated sub-network."""
 from ..core import Unestablished
-from ..hir import walk, strip, pretty, short, calls, pat_binds
+from ..hir import walk, strip, pretty, short, calls, pat_binds, npretty
 from .. import e1, e4
 from ..e1 import Rat
 from .common import top_stmts_of, check_acc_dispatch, acc_matches, mentions_local, INPLACE, T
@@ -151,8 +151,8 @@ def r2(ctx, fn, blk, st, il, into_h, it_h, ih):
     ctx.check("R17.2", "dispatch-on-loopaccumulation", scr.get("k") == "field" and scr["f"] == "loopaccumulation", "dispatch-field:" + pretty(scr), c.loc(fn, m), "match self.loopaccumulation")
 
     def ow(body):
-        asg = [pretty(x) for x in walk(body) if x.get("k") == "assign"]
-        return any(a.startswith("preactivated[j] = fpres[iteration][idx]") for a in asg) and any(a.startswith("activated[(j + 1)] = fposts[iteration][idx]") for a in asg)
+        asg = [npretty(x) for x in walk(body) if x.get("k") == "assign"]
+        return any(a.startswith("preactivated[j] = fpres[iteration][idx]") for a in asg) and any(a.startswith("activated[(1 + j)] = fposts[iteration][idx]") for a in asg)
     check_acc_dispatch(ctx, "R17.2", fn, m, "loop-dispatch", overwrite_ok=ow)
     N = e1.Norm(c, {jh: Rat.atom("j"), idxh: Rat.atom("idx")})
     for arm in m["arms"]:
@@ -206,9 +206,9 @@ def r2(ctx, fn, blk, st, il, into_h, it_h, ih):
                       "preactivated[j] <- fpres[it][idx]; activated[j+1] <- fposts[it][idx]",
                       "the %s arm combines %s; expected %s" % (v, pairs, want))
         else:
-            t = pretty(arm["body"])
+            t = npretty(arm["body"])
             ok = ("let fpre = fpres.iter().map(|x| &x[idx]).collect()" in t and "let fpost = fposts.iter().map(|x| &x[idx]).collect()" in t
-                  and "preactivated[j].mean_inplace(&fpre)" in t and "activated[(j + 1)].mean_inplace(&fpost)" in t)
+                  and "preactivated[j].mean_inplace(&fpre)" in t and "activated[(1 + j)].mean_inplace(&fpost)" in t)
             ctx.check("R17.2", "operands:Mean", ok, "mean-operands", where, "preactivated[j].mean_inplace(all fpres[..][idx]); activated[j+1].mean_inplace(all fposts[..][idx])")
 
 
@@ -227,24 +227,27 @@ def r3(ctx):
             env0[h_] = e1.Norm(c, env0).norm(init_)
         except ValueError:
             pass
-    firsts = [s_ for s_ in st if s_.get("k") == "if" and not e4.outcomes(c, s_["th"], lambda n: False)]
-    first = firsts[0] if firsts else st[0]
-    cond = pretty(strip(first["c"])) if first.get("k") == "if" else "?"
-    okk = first.get("k") == "if" and not e4.outcomes(c, first["th"], lambda n: False)
+    # what is known false when the connection is stored (panicking guards before it, enclosing branches)
+    inserts = [x for x in walk(fn["body"]) if x.get("k") == "mcall" and hm(x["callee"], "insert") and "loopbacks" in pretty(x["recv"])]
+    first = inserts[0] if inserts else fn["body"]
     N = e1.Norm(c, env0)
-    parts_ok = False
-    if first.get("k") == "if":
-        disj = []
-        def flat(n):
-            n = strip(n)
-            if n.get("k") == "bin" and n["op"] == "Or":
-                flat(n["l"]); flat(n["r"])
-            else:
-                disj.append(str(N.norm(n)))
-        flat(first["c"])
-        L = Rat.atom("len(self.layers)")
-        need = {e1.cmp_atom("Ge", Rat.atom("into"), L, integer=True), e1.cmp_atom("Lt", Rat.atom("outof"), Rat.atom("into"), integer=True)}
-        parts_ok = need <= set(disj)
+    known_false = set()
+    cond = "?"
+    if inserts:
+        pcs = [it for it in (e4.path_conditions(c, fn["body"], inserts[0]) or []) if it["kind"] == "if" or it.get("panics")]
+        descr = []
+        for (a, pol, _) in e4.atoms_of(pcs):
+            try:
+                v = N.norm(a)
+            except ValueError:
+                continue
+            known_false.add(str(v) if not pol else str(e1.negate_cond(v)))
+            descr.append(("!" if not pol else "") + pretty(a))
+        cond = " && ".join(descr)
+    okk = bool(inserts)
+    L = Rat.atom("len(self.layers)")
+    need = {e1.cmp_atom("Ge", Rat.atom("into"), L, integer=True), e1.cmp_atom("Lt", Rat.atom("outof"), Rat.atom("into"), integer=True)}
+    parts_ok = need <= known_false
     ctx.check("R17.3", "index-validation", okk and parts_ok, "index-validation:" + short(cond, 90), c.loc(fn, first), "rejects into >= len and outof < into")
     lets = {s["pat"]["name"]: s for s in st if s.get("k") == "let" and s["pat"].get("k") == "bind"}
     oki = "inputs" in lets and pretty(strip(strip(lets["inputs"]["init"])["scrut"])) == "self.layers[into]" and all(".inputs" in pretty(a["body"]) for a in strip(lets["inputs"]["init"])["arms"])
